@@ -219,4 +219,81 @@ theorem getString_rest_le (cfg : Cfg) (n : Nat) (extra : List Char) (eosOk keep 
   have := (len_all cfg n).1 extra eosOk keep subst inp
   rw [h] at this; exact this
 
+/-! ### the fast path of `parse` -/
+
+theorem trigger_covers' :
+    Consts.C17.trigger.contains Consts.C17.escapeChar = true ∧
+    ∀ c ∈ Consts.C17.baseDelims, Consts.C17.trigger.contains c = true := by
+  decide
+
+theorem plain_not_delim' (c : Char) (hc : Consts.C17.trigger.contains c = false) :
+    isDelim [] c = false ∧ c ≠ Consts.C17.escapeChar := by
+  constructor
+  · unfold isDelim
+    cases hb : Consts.C17.baseDelims.contains c with
+    | false => simp
+    | true =>
+      have := trigger_covers'.2 c (by simpa using hb)
+      rw [this] at hc; cases hc
+  · intro heq
+    have := trigger_covers'.1
+    rw [← heq, hc] at this; cases this
+
+theorem scan_plain' (text acc : Str)
+    (h : ∀ c ∈ text, Consts.C17.trigger.contains c = false) :
+    scan [] text acc = .ok (acc.reverse ++ text, []) := by
+  induction text generalizing acc with
+  | nil => simp [scan]
+  | cons c rest ih =>
+    have ⟨hd, he⟩ := plain_not_delim' c (h c (by simp))
+    rw [scan.eq_def]
+    simp only [hd, he, Bool.false_eq_true, if_false]
+    rw [ih (c :: acc) (fun d hd' => h d (by simp [hd']))]
+    simp
+
+theorem getString_plain (cfg : Cfg) (text : Str) (h : hasMeta text = false) :
+    getString cfg (fuelFor text) [] true false true text = .ok (text, []) := by
+  have hall : ∀ c ∈ text, Consts.C17.trigger.contains c = false := by
+    intro c hc
+    unfold hasMeta at h
+    rw [List.any_eq_false] at h
+    simpa using h c hc
+  cases text with
+  | nil => simp [fuelFor, getString, nextToken]
+  | cons c rest =>
+    have ⟨hd, _⟩ := plain_not_delim' c (hall c (by simp))
+    have hs := scan_plain' (c :: rest) [] hall
+    simp only [fuelFor, List.length_cons]
+    rw [show 2 * (rest.length + 1) + 4 = (2 * rest.length + 4) + 1 + 1 by omega]
+    simp only [getString, nextToken, hd, hs]
+    simp
+
+/-- the value of a top-level result (the rest is dropped by `parse`) -/
+def valOf (R : Except PErr (Str × Str)) : Except PErr Str :=
+  match R with
+  | .error e => .error e
+  | .ok (s, _) => .ok s
+
+/-- `parse` is `getString` at top level with fuel `fuelFor`, fast path or not -/
+theorem parse_eq (cfg : Cfg) (text : Str) :
+    parse cfg text = valOf (getString cfg (fuelFor text) [] true false true text) := by
+  unfold parse
+  cases h : hasMeta text with
+  | false => simp [getString_plain cfg text h, valOf]
+  | true =>
+    simp only [Bool.not_true, Bool.false_eq_true, if_false]
+    cases getString cfg (fuelFor text) [] true false true text with
+    | error e => rfl
+    | ok p => cases p; rfl
+
+/-- if `getString` at top level eventually returns `R`, `parse` returns it -/
+theorem parse_of_eventually (cfg : Cfg) (text : Str) (R : Except PErr (Str × Str))
+    (h : ∃ n, ∀ m, n ≤ m → getString cfg m [] true false true text = R) :
+    parse cfg text = valOf R := by
+  obtain ⟨n, hn⟩ := h
+  have ht := getString_total cfg (fuelFor text) [] true false true text (by unfold fuelFor; omega)
+  have hm := mono_le cfg (Nat.le_max_left (fuelFor text) n) [] true false true text ht
+  rw [hn _ (Nat.le_max_right _ _)] at hm
+  rw [parse_eq, ← hm]
+
 end C17
